@@ -17,10 +17,17 @@
 (*   [on, start, end, alloc]   alloc = set of <<partition, time, amount>>.     *)
 (*                                                                             *)
 (* Conventions the property statement leaves open and the pinned code fixes    *)
-(* are named here (DESIGN 7): ConvTrivialMinBonus; Min / LessThan couple       *)
-(* their placement-dependent children all-or-nothing (the lowering uses an     *)
-(* equality on the indicators); utilities of shared sub-expressions count      *)
-(* once per parent; an Allocation always holds its resources and has utility 0.*)
+(* are named here (DESIGN 7):                                                  *)
+(*  - ConvTrivialMinBonus: a Min none of whose children depends on the         *)
+(*    placement (Allocations only) is worth that constant;                     *)
+(*  - Min and LessThan couple their placement-dependent children               *)
+(*    all-or-nothing (the lowering puts an equality on the indicators), so a   *)
+(*    child shared with another parent is bound by it as well;                 *)
+(*  - the utility of a shared sub-expression counts once per parent;           *)
+(*  - an Allocation holds its resources unconditionally and has utility 0;     *)
+(*  - a Choose / MalleableChoose that starts before `now` is never placed;     *)
+(*  - a MalleableChoose occupies whole slots: it ends at the end of its last   *)
+(*    occupied slot (this is what ordering and capacity are judged on).        *)
 EXTENDS Integers, Sequences, FiniteSets, TLC, Json
 
 CONSTANTS BatchFile,            \* path of the JSON batch (Part 3)
